@@ -6,7 +6,8 @@
 EXTENDS Naturals, Sequences, FiniteSets, TLC, SequencesExt, FiniteSetsExt
 
 CONSTANTS Types, Keys, Vals, MaxLen, Programs, FlushDeviation, CapDeviation
-(* program: [steps : Seq([type, f, all]), part, neg, maxRuns, strat, maxK, maxEnum]
+(* program: [steps : Seq([type, f, all]), part, negs : Seq([type, f]), maxRuns, strat, maxK, maxEnum]
+   negation clause filter f in {"none","ge1","eqfirst"}; "eqfirst": x = (first captured event).x
    f in {"none","ge1","eqprev","gtself"}; "gtself" only on an `all` step: x > previous-B.x (postponed)
    strat in {"drop","oldest","least"}                                                        *)
 
@@ -19,7 +20,12 @@ vars == <<prog, stream, runs, out, nextRunId, dropped, evicted>>
 
 NSteps(p) == Len(p.steps)
 PartKey(p, e) == IF p.part THEN e.key ELSE "all"
-NegHit(p, e) == p.neg # "none" /\ e.type = p.neg
+\* does event e satisfy some .not(...) clause, for a run / match whose first captured event is s[first]
+NegHitR(p, e, first, s) ==
+  \E i \in 1..Len(p.negs) : LET c == p.negs[i] IN
+     /\ e.type = c.type
+     /\ CASE c.f = "none" -> TRUE [] c.f = "ge1" -> e.x >= 1 [] c.f = "eqfirst" -> e.x = s[first].x
+NegType(p, e) == \E i \in 1..Len(p.negs) : e.type = p.negs[i].type
 
 \* eager predicate of step k against event e, given run captures cap and stream s2
 Eager(p, k, e, cap, s2) ==
@@ -91,7 +97,7 @@ StartOk(p, e) == Eager(p, 1, e, <<>>, <<>>)
 MinBy(rs, f(_)) == CHOOSE i \in 1..Len(rs) : \A j \in 1..Len(rs) : f(rs[i]) < f(rs[j]) \/ (f(rs[i]) = f(rs[j]) /\ i <= j)
 
 \* the engine routes to a sequence stream only the event types its pattern mentions (steps and .not)
-Relevant(p, e) == e.type \in { p.steps[k].type : k \in 1..NSteps(p) } \cup (IF p.neg = "none" THEN {} ELSE {p.neg})
+Relevant(p, e) == e.type \in { p.steps[k].type : k \in 1..NSteps(p) } \cup { p.negs[i].type : i \in 1..Len(p.negs) }
 
 Process(e) ==
   IF ~Relevant(prog, e) THEN stream' = Append(stream, e) /\ UNCHANGED <<prog, runs, out, nextRunId, dropped, evicted>> ELSE
@@ -99,7 +105,8 @@ Process(e) ==
       s2 == Append(stream, e)
       pk == PartKey(prog, e)
       \* check_global_negations only marks; marked runs are swept when their partition is next processed
-      runs1 == IF NegHit(prog, e) THEN [k \in DOMAIN runs |-> [i \in 1..Len(runs[k]) |-> [runs[k][i] EXCEPT !.inv = TRUE]]] ELSE runs
+      runs1 == IF NegType(prog, e) THEN [k \in DOMAIN runs |-> [i \in 1..Len(runs[k]) |->
+                   IF NegHitR(prog, e, runs[k][i].cap[1], s2) THEN [runs[k][i] EXCEPT !.inv = TRUE] ELSE runs[k][i]]] ELSE runs
       lp == Loop(prog, runs1[pk], 1, e, n, s2, <<>>)
       kept == lp.runs
       startok == StartOk(prog, e)
@@ -132,7 +139,7 @@ Spec == Init /\ [][Next]_vars
 \* These operators do not mention runs: they are the declarative meaning the properties talk about.
 KStep(p) == IF \E k \in 1..NSteps(p) : IsK(p, k) THEN CHOOSE k \in 1..NSteps(p) : IsK(p, k) ELSE 0
 NoAll(p) == KStep(p) = 0
-NoNegBetweenS(s, lo, hi) == \A j \in (lo+1)..(hi-1) : ~NegHit(prog, s[j])
+NoNegBetweenS(s, lo, hi) == \A j \in (lo+1)..(hi-1) : ~NegHitR(prog, s[j], lo, s)
 NoNegBetween(lo, hi) == NoNegBetweenS(stream, lo, hi)
 
 \* C01: a match [cap, kl] over stream s is a genuine occurrence
@@ -170,7 +177,7 @@ ExpectedS(s) ==
       m # <<>> /\ NoNegBetweenS(s, m[1], m[Len(m)]) }
 Expected == ExpectedS(stream)
 OutCaps == [i \in 1..Len(out) |-> { m.cap : m \in out[i] }]
-ExactApplies(p) == NoAll(p) /\ p.maxRuns >= MaxLen
+ExactApplies(p) == NoAll(p) /\ p.maxRuns >= Len(stream)   \* backpressure cannot have interfered
 Exact == ExactApplies(prog) =>
            /\ UNION { OutCaps[i] : i \in 1..Len(out) } = Expected
            /\ \A i \in 1..Len(out) : Cardinality(out[i]) = 1          \* one match per completion
@@ -189,7 +196,7 @@ KeptBs(s, p) ==   \* first maxK events of the Kleene type that satisfy the eager
   IN SubSeq(sq, 1, IF Len(sq) < p.maxK THEN Len(sq) ELSE p.maxK)
 ValidCombos(s, p) == IF KeptBs(s, p) = <<>> THEN {} ELSE IF Postponed(p, KStep(p)) THEN Combos(KeptBs(s, p), s, TRUE) ELSE { ToSet(KeptBs(s, p)) }
 \* shape A B^n C with a 3-step program whose middle step is `all`, no negation, no partition cut
-C03Shape(s, p) == /\ NSteps(p) = 3 /\ KStep(p) = 2 /\ p.neg = "none" /\ p.steps[1].f = "none" /\ p.steps[3].f = "none"
+C03Shape(s, p) == /\ NSteps(p) = 3 /\ KStep(p) = 2 /\ p.negs = <<>> /\ p.steps[1].f = "none" /\ p.steps[3].f = "none"
                   /\ Len(s) >= 3 /\ s[1].type = p.steps[1].type /\ s[Len(s)].type = p.steps[3].type
                   /\ \A j \in 2..(Len(s)-1) : s[j].type = p.steps[2].type
                   /\ \A j \in 1..Len(s) : PartKey(p, s[j]) = PartKey(p, s[1])
